@@ -1108,7 +1108,9 @@ impl Vm {
             let exc_object = self.active_fiber().pending_exception;
             self.active_fiber_mut().pending_exception = Value::None;
             self.push(exc_object);
-            self.unwind_stack()?;
+            // The exception has found a handler and execution continues there. A return that is
+            // still parked belongs to a finally block further out that has not ended yet.
+            return self.unwind_stack();
         }
         let return_data = self.active_fiber_mut().take_return_data();
         if let Some((value, ip)) = return_data {
